@@ -232,16 +232,18 @@ def diag(prog: Program, res: Result) -> None:
             res.undecided("DIAG", short, desc, prog.loc(fi, tile[0]), "element count / constructed shape not identified")
         else:
             t = tile[0]
-            src = t.args[0] if t.args else None
-            reps = t.args[1] if len(t.args) > 1 else None
+            src = fi.resolve(t.args[0]) if t.args else None
+            reps = fi.resolve(t.args[1]) if len(t.args) > 1 else None
             # source: arange(N) (as a column or transposed row)
             ar = [c for c in ast.walk(src) if isinstance(c, ast.Call) and (dotted(c.func) or "").split(".")[-1] == "arange"] if src is not None else []
-            ar_ok = bool(ar) and isinstance(ar[0].args[-1], ast.Name) and ar[0].args[-1].id in count_names \
-                and (len(ar[0].args) == 1 or const(ar[0].args[0]) == 0)
+            def is_count(x):
+                return (isinstance(x, ast.Name) and x.id in count_names) or (isinstance(x, ast.Call) and (dotted(x.func) or "") == "len")
+            ar_ok = bool(ar) and is_count(ar[0].args[-1]) and (len(ar[0].args) == 1 or const(ar[0].args[0]) == 0)
             # repetitions: len(S) with the S of the constructor
-            lens = [c for c in ast.walk(reps) if isinstance(c, ast.Call) and (dotted(c.func) or "") == "len" and c.args
-                    and isinstance(c.args[0], ast.Name)] if reps is not None else []
-            rep_ok = bool(lens) and lens[0].args[0].id == shape_name
+            lens = [c for c in ast.walk(reps) if isinstance(c, ast.Call) and (dotted(c.func) or "") == "len" and c.args] if reps is not None else []
+            shape_defs = {ast.unparse(d) for d in ([fi.single_defs()[shape_name]] if shape_name in fi.single_defs() else [])}
+            rep_ok = bool(lens) and ((isinstance(lens[0].args[0], ast.Name) and lens[0].args[0].id == shape_name)
+                                     or ast.unparse(lens[0].args[0]) in shape_defs)
             if ar_ok and rep_ok:
                 res.ok("DIAG", short, desc, prog.loc(fi, t), f"tile({ast.unparse(src)}, {ast.unparse(reps)})")
             elif not rep_ok:
